@@ -402,6 +402,79 @@ Section Main.
     end.
   Proof. reflexivity. Qed.
 
+  (* ---- the password enters verbatim, and only through PH2 of the exact byte string ----
+     [srp_answer_x] is the computation of getInputCheckPassword with x as a parameter. *)
+  Definition srp_answer_x (x : Z) (srpB : bytes) (mp : modpow) (random : bytes) : outcome (option answer) :=
+    if negb (validate_current_algo srpB mp) then Err else
+    let p := big_of_bytes (mp_p mp) in
+    let g := mp_g mp in
+    let gBytes := pad256 (big_bytes g) in
+    let a := big_of_bytes random in
+    let ga := pad256 (big_bytes (mexp g a p)) in
+    let gb := pad256 srpB in
+    let u := big_of_bytes (H (ga ++ gb)) in
+    let v := mexp g x p in
+    let k := big_of_bytes (H (mp_p mp ++ gBytes)) in
+    if p =? 0 then Panic else
+    let kv := (k * v) mod p in
+    let t0 := big_of_bytes srpB - kv in
+    let t := if t0 <? 0 then t0 + p else t0 in
+    let sa := pad256 (big_bytes (mexp t (u * x + a) p)) in
+    let ka := H sa in
+    do hx <- bytes_xor (H (mp_p mp)) (H gBytes);
+    Ok (Some {| GA := ga;
+                M1 := H (hx ++ H (mp_salt1 mp) ++ H (mp_salt2 mp) ++ ga ++ gb ++ ka) |}).
+
+  Lemma gicp_via_ph2 password srpB mp random : password <> [] ->
+    gicp password srpB (Some mp) random =
+    srp_answer_x (big_of_bytes (PH2 password (mp_salt1 mp) (mp_salt2 mp))) srpB mp random.
+  Proof. destruct password as [|c pw]; [congruence|]. intros _. reflexivity. Qed.
+
+  Lemma srp_answer_x_not_none x srpB mp random : srp_answer_x x srpB mp random <> Ok None.
+  Proof.
+    unfold srp_answer_x. destruct (negb (validate_current_algo srpB mp)); [discriminate|]. cbv zeta.
+    destruct (big_of_bytes (mp_p mp) =? 0); [discriminate|].
+    destruct (bytes_xor _ _); cbn [obind]; discriminate.
+  Qed.
+
+  Lemma gicp_same_ph2 password password' srpB mp random :
+    password <> [] -> password' <> [] ->
+    PH2 password (mp_salt1 mp) (mp_salt2 mp) = PH2 password' (mp_salt1 mp) (mp_salt2 mp) ->
+    gicp password srpB (Some mp) random = gicp password' srpB (Some mp) random.
+  Proof. intros H1 H2 E. rewrite !gicp_via_ph2 by assumption. now rewrite E. Qed.
+
+  Lemma gicp_none_iff password srpB mp random :
+    gicp password srpB (Some mp) random = Ok None <-> password = [].
+  Proof.
+    split; [|intros ->; reflexivity].
+    destruct password as [|c pw]; [reflexivity|]. intros E.
+    rewrite gicp_via_ph2 in E by discriminate. now apply srp_answer_x_not_none in E.
+  Qed.
+
+  (* the exported wrapper hands the password to the internal function unchanged *)
+  Lemma tg_via_ph2 password srpB id mp random :
+    tg password (Some {| ap_algo := AlgoModPow (Some mp); ap_srpB := srpB; ap_srpid := id |}) random =
+    match password with
+    | [] => Ok CheckEmpty
+    | _ :: _ =>
+      match srp_answer_x (big_of_bytes (PH2 password (mp_salt1 mp) (mp_salt2 mp))) srpB mp random with
+      | Ok None => Ok CheckEmpty
+      | Ok (Some r) => Ok (CheckSRP id (GA r) (M1 r))
+      | Err => Err
+      | Panic => Panic
+      end
+    end.
+  Proof. rewrite tg_result. destruct password as [|c pw]; [reflexivity|]. rewrite gicp_via_ph2 by discriminate. reflexivity. Qed.
+
+  Lemma tg_empty_iff password srpB id mp random :
+    tg password (Some {| ap_algo := AlgoModPow (Some mp); ap_srpB := srpB; ap_srpid := id |}) random = Ok CheckEmpty
+    <-> password = [].
+  Proof.
+    rewrite tg_result. split; [|intros ->; reflexivity]. intros E.
+    apply (gicp_none_iff password srpB mp random).
+    destruct (gicp password srpB (Some mp) random) as [[r|]| |]; try discriminate. reflexivity.
+  Qed.
+
   (* ---- wrong password ----
      The server recomputes M1 from ITS secret; the two M1 preimages differ only in the final
      H(enc256 S) block.  Under injectivity of H on exactly those two strings, and on the two
